@@ -33,7 +33,7 @@ pub fn run<C: Suite>(ctx: &mut Ctx) {
     let slow = C::NAME == "ed448";
     let max_n: u16 = match (ctx.quick(), slow) {
         (true, true) => 4,
-        (true, false) => 5,
+        (true, false) => 7,
         (false, true) => 6,
         (false, false) => 9,
     };
@@ -50,7 +50,7 @@ pub fn run<C: Suite>(ctx: &mut Ctx) {
             if e == "batch_verify" && t != 2 {
                 continue;
             }
-            if ctx.quick() && !shape_free && e != "dkg_part1" && e != "repair_share_part1" && (n + t) % 2 == 1 {
+            if ctx.quick() && slow && !shape_free && e != "dkg_part1" && e != "repair_share_part1" && (n + t) % 2 == 1 {
                 continue;
             }
             if !ctx.item(&format!("{e} n={n} t={t}")) {
